@@ -135,6 +135,9 @@ pub enum TsStage {
     /// zip with a second scripted source (pair timestamp = max of the two)
     Zip(TsSource),
     DropTimestamps,
+    /// keeps a pseudo-random half of the elements that depends on the round of the enclosing
+    /// `replay` (round 0 outside loops): the content of the stream changes from round to round
+    RoundFilter,
 }
 
 #[derive(Clone, Debug, PartialEq, Eq, Hash, Serialize, Deserialize)]
@@ -153,11 +156,13 @@ pub struct TsBuilder<'a> {
     /// (probe id, stage name)
     pub info: Vec<(u32, String)>,
     pub batch: Option<BatchSpec>,
+    /// the state (= round number) of the enclosing `replay`, while its body is being built
+    pub state: Option<renoir::IterationStateHandle<i64>>,
 }
 
 impl<'a> TsBuilder<'a> {
     pub fn new(env: &'a StreamContext, batch: Option<BatchSpec>) -> Self {
-        TsBuilder { env, next_probe: 0, info: Vec::new(), batch }
+        TsBuilder { env, next_probe: 0, info: Vec::new(), batch, state: None }
     }
     fn tap(&mut self, s: DStream<Rec>, what: &str) -> DStream<Rec> {
         let id = self.next_probe;
@@ -190,8 +195,9 @@ impl<'a> TsBuilder<'a> {
             let state = s.replay(
                 job.replay_rounds as usize,
                 0i64,
-                move |s, _state| {
+                move |s, state| {
                     let this: &mut TsBuilder<'static> = unsafe { &mut *this_ptr };
+                    this.state = Some(state);
                     let mut s = this.tap(erase(s), "loop-in");
                     let mut repl = src_repl;
                     for st in &stages {
@@ -199,11 +205,16 @@ impl<'a> TsBuilder<'a> {
                         s = s2;
                         repl = r2;
                     }
+                    this.state = None;
                     s
                 },
-                |d: &mut i64, _x: Rec| *d += 1,
-                |st: &mut i64, d: i64| *st += d,
-                |_st: &mut i64| true,
+                // the state is the round number
+                |_d: &mut i64, _x: Rec| {},
+                |_st: &mut i64, _d: i64| {},
+                |st: &mut i64| {
+                    *st += 1;
+                    true
+                },
             );
             return erase(state.map(Rec::new));
         }
@@ -315,6 +326,17 @@ impl<'a> TsBuilder<'a> {
                 )
             }
             TsStage::DropTimestamps => (erase(s.drop_timestamps()), repl, "drop_timestamps"),
+            TsStage::RoundFilter => {
+                let st = self.state.clone();
+                (
+                    erase(s.filter(move |x: &Rec| {
+                        let round = st.as_ref().map_or(0, |h| *h.get()) as u64;
+                        crate::rec::mix64((x.v as u64) ^ (round << 40)) % 2 == 0
+                    })),
+                    repl,
+                    "round_filter",
+                )
+            }
         };
         (self.tap(out, name), r)
     }
